@@ -215,6 +215,12 @@ class MainLoop(Contract):
     aux_tus = [('src/main.cpp', 'vfps::')]
     params = ['argc', 'argv']
     tags = {'C05', 'C10', 'C12', 'C14', 'C15', 'C19'}
+
+    def replay(self, o, model, pid):
+        """whole-program replay: the real binary, built from the tree under check, run on scenarios whose results are checked
+        without any model (record counts against the time axis, cadence independence of the final state, SIGINT handling)"""
+        sc = {'C10': ['records'], 'C12': ['cadence'], 'C14': ['interrupt', 'records'], 'C19': ['rfkicks', 'cadence']}.get(pid)
+        return {'driver': 'main', 'scenarios': sc} if sc else None
     slice_from = 'updatetime'
     canary = True
     property_hints = True      # the per-iteration reference term IS the statement of C12/C05 (step result independent of the output block)
